@@ -409,3 +409,89 @@ RECIPES += [
     f.write("ENDT\\n")
 ''', "tabled1 one code path for both field widths (per = 64 // n)"),
 ]
+
+RECIPES += [
+    ("C13", "neutral", [], B, _NASINTS, '''    n = len(ints)
+    i = min(n, 10 - start)
+    f.write(("{:8d}" * i + "\\n").format(*ints[:i]))
+    for k in range(i, n, 8):
+        chunk = ints[k : k + 8]
+        f.write(("{:8s}" + "{:8d}" * len(chunk) + "\\n").format("", *chunk))
+''', "wtnasints continuation lines by a range loop over chunks"),
+    ("C13", "break", ["C13-R4"], B, _NASINTS, '''    n = len(ints)
+    i = min(n, 10 - start)
+    f.write(("{:8d}" * i + "\\n").format(*ints[:i]))
+    for k in range(i, n, 8):
+        chunk = ints[k : k + 7]
+        f.write(("{:8s}" + "{:8d}" * len(chunk) + "\\n").format("", *chunk))
+''', "wtnasints chunks of 7 with a stride of 8"),
+    ("C13", "neutral", [], B, _DMIG_FORM + '''
+        # determine type of matrix:
+        if np.iscomplexobj(m):
+            mtype = 4 if m.dtype.itemsize > 8 else 3
+        else:
+            mtype = 2 if m.dtype.itemsize > 4 else 1
+''', '''        else:
+            def _square_form(a):
+                if np.allclose(a.transpose(), a):
+                    return 6
+                return 1
+
+            form = _square_form(m)
+
+        # determine type of matrix:
+        def _dmig_type(a):
+            wide = a.dtype.itemsize
+            if np.iscomplexobj(a):
+                return 4 if wide > 8 else 3
+            return 2 if wide > 4 else 1
+
+        tin = _dmig_type(m)
+        mtype = tin
+''', "wtdmig form / type through local helper functions"),
+]
+
+RECIPES += [
+    ("C13", "neutral", [], B, '''def wtgrids(
+    f,
+    grids,
+    cp=0,
+    xyz=np.array([[0.0, 0.0, 0.0]]),
+    cd=0,
+    ps="",
+    seid="",
+    form="{:16.8f}",
+):''', '''_WIDE = 16
+_GRID_REAL = "{:%d.8f}" % _WIDE
+
+
+def wtgrids(
+    f,
+    grids,
+    cp=0,
+    xyz=np.array([[0.0, 0.0, 0.0]]),
+    cd=0,
+    ps="",
+    seid="",
+    form=_GRID_REAL,
+):''', "wtgrids default form assembled at module level (F11 key must survive)"),
+    ("C13", "break", ["C13-R1"], B, '''    seid="",
+    form="{:16.8f}",
+):''', '''    seid="",
+    form="{:16.9f}",
+):''', "wtgrids another unbounded default (not the known finding)"),
+]
+
+RECIPES += [
+    ("C13", "neutral", [], B, _DMIG_FORM, '''        else:
+            def _is_symmetric(a):
+                if a.shape[0] != a.shape[1]:
+                    return False
+                return np.allclose(a, a.T)
+
+            if _is_symmetric(m):
+                form = 6
+            else:
+                form = 1
+''', "wtdmig symmetric test in a local predicate with an early return"),
+]
